@@ -1,5 +1,6 @@
 (* Corr/C05.v — providers are opened only with complete, valid inputs, once. *)
 From Verif Require Import Base.Bytes Base.Wire Model.Chain Model.Eval Corr.EvalWire.
+From Verif Require Corr.C08.
 
 (* what the generator knows about each fn::open site: a provider name unique to the site, the environment
    that contains it, and (when the inputs are literals) the inputs it must receive *)
@@ -134,4 +135,28 @@ Definition decode (x : sexp) : option case :=
 Definition verdict (c : case) : N :=
   verdict_bits (mismatch c) (spec_fail_new c) (spec_fail_known c) (nontrivial c).
 
-Definition run_line : string -> string := run_with decode verdict.
+(* ---- the keyword-level gate (shared with C08) --------------------------------------------------------------
+   "only if those inputs satisfy the provider's declared input schema": the evaluator model above knows input schemas as
+   shapes (types, required, closed records).  For the numeric keywords the same gate is judged by C08's model, the full
+   validator (Model/Validate.v): a gate line `(case defs schema value obs)` of C08's wire is decoded with C08's decoder and
+   its verdict is used, with NO excused class (the gate cases generated for C05 stay outside C08's known findings, so a
+   failure inside one of them is a new failure here). *)
+Definition decode2 (x : sexp) : option (case + Corr.C08.case) :=
+  match decode x with
+  | Some c => Some (inl c)
+  | None => option_map inr (Corr.C08.decode x)
+  end.
+
+Definition gate_verdict (g : Corr.C08.case) : N :=
+  if Corr.C08.undecided g then 16
+  else match g with
+       | Corr.C08.CGate _ _ _ _ =>
+           verdict_bits (Corr.C08.mismatch g) (Corr.C08.spec_fail_new g || Corr.C08.spec_fail_known g) false
+                        (Corr.C08.nontrivial g)
+       | Corr.C08.CSpec _ _ _ => 16
+       end.
+
+Definition verdict2 (c : case + Corr.C08.case) : N :=
+  match c with inl c => verdict c | inr g => gate_verdict g end.
+
+Definition run_line : string -> string := run_with decode2 verdict2.
